@@ -152,7 +152,7 @@ def base_stories(ctx):
         if n < (5000 if ctx.quick() else 20000):
             files.append(f)
     ctx.rng.shuffle(files)
-    return files[:36] if ctx.quick() else files
+    return files[:28] if ctx.quick() else files
 
 
 def read_story(f):
@@ -302,7 +302,7 @@ def run_story_side(ctx, cases, std_exe, stream_exe, facts):
     okidx = [i for i, r in enumerate(res_std) if r.get("load") == "ok" and model.get(i) == "ok"
              and cases[i]["kind"] != "valid" and len(res_std[i].get("doc") or "") < 60000]
     ctx.rng.shuffle(okidx)
-    okidx = sorted(okidx[:(80 if ctx.quick() else 2500)])
+    okidx = sorted(okidx[:(60 if ctx.quick() else 2500)])
     stats["tree_compared"] = 0
     if okidx and model_err is None:
         acases = [dict(cases[i], id="a%d" % i, want_doc=False, want_audit=True) for i in okidx]
@@ -493,7 +493,7 @@ def run(ctx):
         walls[name] = round(time.time() - t0, 1)
         t0 = time.time()
 
-    facts = gen_tables.run(["path", "load"])
+    facts = gen_tables.run(["path", "load", "native", "cmd"])
     ctx.coverage["generated_tables"] = {k: v for k, v in facts.items() if k.startswith("load.") or k.startswith("path.")}
     pr = ctx.proof("theories/Props/C15.v")
     lap("proof")
@@ -558,7 +558,7 @@ def replay(ctx, payload):
                 "src": r.get("src", "replay")}
         viol, _ = run_save_side(ctx, [case], exe, build)
     elif r.get("mode") == "story":
-        facts = gen_tables.run(["path", "load"])
+        facts = gen_tables.run(["path", "load", "native", "cmd"])
         case = {"id": "r0", "mode": "story", "text": r["text"], "kind": r.get("kind", "replay"),
                 "src": r.get("src", "replay"), "want_doc": True}
         std_exe = vlib.build_harness(binname="loadfuzz")
